@@ -424,6 +424,7 @@ func runC19(r *core.Run) {
 		}
 	})
 	c19Constructors(r)
+	c19SignatureSweep(r)
 	bd := 4
 	if !r.Quick() {
 		bd = 5
@@ -461,6 +462,8 @@ func replayC19(r *core.Run, c core.Case) {
 		if cl, detail := c19RunBuilderSeq(c19BuilderOps(), seq); cl != "" {
 			r.Violate("C19|CertificateBuilder(sequence)~direct|"+cl, detail, c)
 		}
+	case "sigsweep":
+		c19SignatureSweep(r)
 	default:
 		c19Constructors(r)
 	}
